@@ -523,7 +523,9 @@ func (h *hostile) auxParsers() {
 			// assembled receipts: key tokens in any spelling between junk of arbitrary octets, invalid UTF-8 and runes
 			// whose case mappings change their encoded length; most end shortly after a key
 			keys := []string{"id:", "sub:", "dlvrd:", "submit date:", "done date:", "stat:", "err:", "text:", "Sub:", "Dlvrd:", "Submit_Date:", "Done_Date:", "Stat:", "Err:", "Text:", "ID:", "STAT:", "Id:"}
-			odd := []string{"\xff", "\xfe\xfd", "\xd6\xd0\xce\xc4", "\u023a", "\u212a", "\u0130", "\u1e9e", "\u00df", "\xc0\xaf", "\xed\xa0\x80", "\xf0\x9f", " ", "  ", "\x00", ":"}
+			odd := []string{"\xff", "\xfe\xfd", "\xd6\xd0\xce\xc4", "\u023a", "\u212a", "\u0130", "\u1e9e", "\u00df", "\xc0\xaf", "\xed\xa0\x80", "\xf0\x9f", " ", "  ", "\x00", ":",
+				// values a parser may take for numbers: signed, padded, in other bases, out of range
+				"-1", "-7 ", "+2", "-0", "-001 ", "0x1F", "1e3", "-2147483649", "9223372036854775808", "00000000000000000009 "}
 			s = s[:0]
 			for i, n := 0, 1+c.Intn(5); i < n; i++ {
 				switch c.Pick(3, 3, 2, 1) {
